@@ -57,6 +57,10 @@ claimed = {
    text="Bounded histories of source-node records, destination-node records and expiry scans driven through the real aggregation code (isCorrelationRequired, correlateRecords, areRecordsFromSameNode, the retry/drop branch of ForAllExpiredFlowRecordsDo) with the flow type and both rule actions as solver variables over all 256 values: a flow that needs correlation is never ready nor handed to the callback before both sides were seen, the merged record carries every non-empty correlate field of either side and is marked filled, other flows are ready at once, an uncorrelated flow is retried MaxRetries times then dropped without export.",
    note="Bounds: histories of 3 (quick) / 4 (thorough) events on one flow. String fields and cluster IP split empty/non-empty with concrete contents; per-flow agreement on correlation-relevant fields assumed; virtual time as in C06.",
    tech="symbolic execution of Go SSA + SMT over bounded event histories"),
+ "C10": dict(cat="model_checking", sec="DESIGN.md section 4, C10",
+   text="Exhaustive bounded schedules of the real UDP template lifetime code (addTemplate with expiry time / AfterFunc / Reset, the timer callback closure, deleteTemplateWithConds, invalidation in decodeTemplateSet, decodeDataSet) against an explicit model of time.AfterFunc timers (armed, fired-but-callback-pending, idle) injected through the collector's clock interface, with time a solver variable: after every event the template store must equal a ghost model (never dropped before its lifetime, gone once a callback ran after the lifetime, invalidated by a bad template), data is accepted exactly when a template is in force, and every stored template has exactly one armed timer targeting t0+TTL or a pending callback while removed ones have no armed timer.",
+   note="Bounds: schedules of depth 5 (quick) / 6 (thorough) on 2 keys; callbacks atomic w.r.t. message handling (mutex trusted); real timers, goroutines and parallelism are not explored.",
+   tech="symbolic execution of Go SSA + SMT over bounded schedules with an explicit timer-state model and symbolic time"),
 }
 
 NA = {
